@@ -322,7 +322,7 @@ Definition mark_step (okc : list cmd) (p c : snap) (k : tkey) (m0 : mark) : N * 
                                    && (t_phase t =? PhaseVerifyNewLeader)
                        | None => false
                        end
-                    && (t_phase cur =? PhaseAddLearner) && negb (t_embedded_leader_transfer cur) in
+                    && negb cur_post in
     (* a Claim/Advance that changes the phase or the embedded flag of the row *)
     let adv_moved := has_adv
                      && match pre with
